@@ -2119,6 +2119,11 @@ fn drive_bulk(tr: &mut Tracer, c: &mut Counters, a: &Args, name: &str, thorough:
             if (name.ends_with("vec_u8") || name.ends_with("slice_u8")) && n > 1 {
                 continue;
             }
+            // ids at both ends of the id space: the point is the wrap of the id counter, not the size
+            // (TLC overflows its stack building functions over thousands of scattered negative ids)
+            if name == "mem:from_data_top" && n > 513 {
+                continue;
+            }
             // every size with the two irregular profiles; the regular ones and the 64 KiB
             // record (x compression level 9 adds up) with a few sizes
             let few: &[usize] = if *p == "big_first" {
